@@ -533,13 +533,13 @@ def run_check(pid, tier):
     print(f"{pid} {tier}: {total_eval} cases, {total_nt} distinct non-trivial, {n_reg} regressions, "
           f"{n_viol} violations, {evidence['wall_s']}s")
     if status == 0 and problems:
-        soft = [p for p in problems if "essential class" in p]
-        hard = [p for p in problems if p not in soft]
+        # Coverage and speed diagnostics are recorded in the evidence and printed, but they do not fail the check: an essential
+        # class that is merely rare can be empty at some seed, and CPU time per case depends on how loaded the machine is. Only
+        # a run that could not judge a noticeable share of its cases (inconclusive > 5%) is reported as a harness problem.
+        hard = [p for p in problems if "inconclusive" in p]
         for p in problems:
-            print("HARNESS-PROBLEM:" if (p in hard or tier == "thorough") else "GENERATOR-NOTE:", p)
-        # a class that is merely rare can have no member in one quick run at some seed: that is noted (and recorded in the
-        # evidence), not failed; in the thorough tier (>=100x the cases) an empty essential class is a generator regression
-        if hard or tier == "thorough":
+            print("HARNESS-PROBLEM:" if p in hard else "GENERATOR-NOTE:", p)
+        if hard:
             return 2
     return status
 
